@@ -228,7 +228,15 @@ def gen_claim_id(rng):
 
 
 def gen_address(rng):
-    raw = bytes([0x55]) + bytes(rng.randrange(256) for _ in range(24))
+    c = rng.random()
+    if c < 0.6:
+        raw = bytes([0x55]) + bytes(rng.randrange(256) for _ in range(24))          # LBRY 'b...'
+    elif c < 0.85:
+        raw = bytes([0x00]) + bytes(rng.randrange(256) for _ in range(24))          # Bitcoin P2PKH '1...'
+    elif c < 0.92:
+        raw = bytes([0x00, 0x00]) + bytes(rng.randrange(1, 256) for _ in range(23))  # two leading zero bytes '11...'
+    else:
+        raw = bytes([0x05]) + bytes(rng.randrange(256) for _ in range(24))          # Bitcoin P2SH '3...'
     return b58encode(raw), raw.hex()
 
 
@@ -314,6 +322,11 @@ def gen_location(rng):
         form = 'string'
     if form == 'string' and 'longitude' in d and 'latitude' not in d:
         form = 'dict'                                            # the colon form cannot say "longitude only"
+    if form in ('dict', 'json') and rng.random() < 0.15:
+        # the coordinates as numbers instead of strings (natural in JSON)
+        for k in ('latitude', 'longitude'):
+            if k in d:
+                d[k] = float(d[k])
     return {'form': form, 'value': d}
 
 
@@ -356,6 +369,8 @@ def gen_common(rng):
         s['description'] = gen_text(rng, 300) if rng.random() < 0.9 else 'd' * rng.choice(LEN_EDGES)
     if rng.random() < 0.5:
         s['thumbnail_url'] = 'https://' + gen_plain(rng, 30).replace(' ', '')
+    if rng.random() < 0.15:
+        s['thumbnail_hash'] = gen_hex(rng, 48)
     s['tags'] = gen_tags(rng)
     s['languages'] = [gen_language(rng) for _ in range(rng.choice([0, 0, 1, 1, 2, 4]))]
     s['locations'] = [gen_location(rng) for _ in range(rng.choice([0, 0, 1, 1, 2, 3]))]
@@ -390,6 +405,9 @@ def gen_claim_spec(rng):
             src['sd_hash'] = gen_hex(rng, 48)
         elif c < 0.8:
             src['bt_infohash'] = gen_hex(rng, 20)
+        elif c < 0.9:
+            src['sd_hash'] = gen_hex(rng, 48)
+            src['bt_infohash'] = gen_hex(rng, 20)          # a source may carry both
         if rng.random() < 0.4:
             src['file_hash'] = gen_hex(rng, 48)
         if rng.random() < 0.5:
@@ -416,6 +434,8 @@ def gen_claim_spec(rng):
                 s[k] = gen_text(rng, 30)
         if rng.random() < 0.4:
             s['cover_url'] = 'https://' + gen_plain(rng, 20).replace(' ', '')
+        if rng.random() < 0.2:
+            s['cover_hash'] = gen_hex(rng, 48)
         s['featured'] = [gen_claim_id(rng) for _ in range(rng.choice([0, 0, 1, 2, 5]))]
     elif t == 'repost':
         if rng.random() < 0.9:
@@ -435,6 +455,8 @@ def apply_common_setters(obj, s):
         obj.description = s['description']
     if 'thumbnail_url' in s:
         obj.thumbnail.url = s['thumbnail_url']
+    if 'thumbnail_hash' in s:
+        obj.thumbnail.file_hash = s['thumbnail_hash']
     for t in s['tags']:
         obj.tags.append(t)
     for lang in s['languages']:
@@ -448,6 +470,8 @@ def common_kwargs(s):
     for k in ('title', 'description', 'thumbnail_url'):
         if k in s:
             kw[k] = s[k]
+    if 'thumbnail_hash' in s:
+        kw['thumbnail_file_hash'] = s['thumbnail_hash']
     if s['tags']:
         kw['tags'] = list(s['tags'])
     if s['languages']:
@@ -478,12 +502,17 @@ def build_claim(s):
             for k in ('sd_hash', 'bt_infohash', 'file_hash'):
                 if k in src:
                     kw[k] = src[k]
+            second = {}
+            if 'sd_hash' in kw and 'bt_infohash' in kw:
+                second['bt_infohash'] = kw.pop('bt_infohash')      # update() takes one of the two per call
             if 'size' in src:
                 kw['file_size'] = src['size']
             for k in ('width', 'height', 'duration'):
                 if k in media:
                     kw[k] = media[k]
             st.update(**kw)
+            if second:
+                st.update(**second)
         else:
             apply_common_setters(st, s)
             for k in ('author', 'license', 'license_url', 'release_time'):
@@ -517,6 +546,8 @@ def build_claim(s):
             for k in ('public_key', 'email', 'website_url', 'cover_url'):
                 if k in s:
                     kw[k] = s[k]
+            if 'cover_hash' in s:
+                kw['cover_file_hash'] = s['cover_hash']
             if s['featured']:
                 kw['featured'] = list(s['featured'])
             ch.update(**kw)
@@ -529,6 +560,8 @@ def build_claim(s):
                     setattr(ch, k, s[k])
             if 'cover_url' in s:
                 ch.cover.url = s['cover_url']
+            if 'cover_hash' in s:
+                ch.cover.file_hash = s['cover_hash']
             for cid in s['featured']:
                 ch.featured.append(cid)
     elif t == 'repost':
@@ -573,8 +606,19 @@ def expected_tags(tags):
     return out
 
 
+_COORD_MODE = ['exact']
+
+
 def coord_units(x):
+    """1e-7 degrees.  A number given as a float means its shortest decimal spelling (51.4779), which is what was set;
+    mode 'binary' is the reading through Decimal(float) (51.477899999999998...), kept to recognise that one finding"""
+    if isinstance(x, float):
+        return int((Decimal(x) if _COORD_MODE[0] == 'binary' else Decimal(repr(x))) * 10 ** 7)
     return int(Decimal(x) * 10 ** 7)
+
+
+def has_float_coord(s):
+    return any(isinstance(loc['value'].get(k), float) for loc in s['locations'] for k in ('latitude', 'longitude'))
 
 
 def fee_units(cur, amount):
@@ -638,8 +682,8 @@ def expected_tree(s):
         top.append(tm(1, body))
     elif t == 'channel':
         body = [tb(1, bytes.fromhex(s.get('public_key', ''))), ts(2, s.get('email', '')), ts(3, s.get('website_url', ''))]
-        if s.get('cover_url'):
-            body.append(tm(4, [ts(5, s['cover_url'])]))
+        if s.get('cover_url') or s.get('cover_hash'):
+            body.append(tm(4, [tb(1, bytes.fromhex(s.get('cover_hash', ''))), ts(5, s.get('cover_url', ''))]))
         if s['featured']:
             body.append(tm(5, [ref_field(2, c) for c in s['featured']]))
         top.append(tm(2, body))
@@ -648,8 +692,8 @@ def expected_tree(s):
     else:
         top.append(tm(3, [ref_field(2, c) for c in s['claims']]))
     top += [ts(8, s.get('title', '')), ts(9, s.get('description', ''))]
-    if s.get('thumbnail_url'):
-        top.append(tm(10, [ts(5, s['thumbnail_url'])]))
+    if s.get('thumbnail_url') or s.get('thumbnail_hash'):
+        top.append(tm(10, [tb(1, bytes.fromhex(s.get('thumbnail_hash', ''))), ts(5, s.get('thumbnail_url', ''))]))
     top += [ts(11, tg) for tg in expected_tags(s['tags'])]
     top += [tm(12, lang_fields(lg)) for lg in s['languages']]
     top += [tm(13, loc_fields(loc['value'])) for loc in s['locations']]
@@ -660,8 +704,8 @@ def expected_read(s):
     """what the typed accessors must return after the round trip (canonical JSON-able form)"""
     t = s['type']
     e = {'claim_type': t, 'title': s.get('title', ''), 'description': s.get('description', ''),
-         'thumbnail_url': s.get('thumbnail_url', ''), 'tags': expected_tags(s['tags']), 'langtags': list(s['languages']),
-         'locations': []}
+         'thumbnail_url': s.get('thumbnail_url', ''), 'thumbnail_hash': s.get('thumbnail_hash', ''),
+         'tags': expected_tags(s['tags']), 'langtags': list(s['languages']), 'locations': []}
     for loc in s['locations']:
         d = loc['value']
         x = {k: d[k] for k in ('country', 'state', 'city', 'code') if d.get(k)}
@@ -697,7 +741,7 @@ def expected_read(s):
             e['media'] = None
     elif t == 'channel':
         e.update(public_key=s.get('public_key', ''), email=s.get('email', ''), website_url=s.get('website_url', ''),
-                 cover_url=s.get('cover_url', ''), featured=list(s['featured']))
+                 cover_url=s.get('cover_url', ''), cover_hash=s.get('cover_hash', ''), featured=list(s['featured']))
     elif t == 'repost':
         e['claim_id'] = s.get('claim_id', '')
     else:
@@ -720,7 +764,9 @@ def _coord_view(v):
 def expected_dict_view(s):
     t = s['type']
     e = {'title': s.get('title', ''), 'description': s.get('description', ''), 'tags': expected_tags(s['tags']),
-         'languages': list(s['languages']), 'locations': []}
+         'languages': list(s['languages']), 'locations': [], 'thumbnail_hash': s.get('thumbnail_hash', '')}
+    if t == 'channel':
+        e['cover_hash'] = s.get('cover_hash', '')
     for loc in s['locations']:
         d = loc['value']
         x = {k: d[k] for k in ('country', 'state', 'city', 'code') if d.get(k)}
@@ -738,8 +784,6 @@ def expected_dict_view(s):
                         'amount': [fr.numerator, fr.denominator] if units else None}
         src = s['source']
         e['source'] = {k: src.get(k, '') for k in ('sd_hash', 'bt_infohash', 'file_hash')}
-        if src.get('sd_hash') and src.get('bt_infohash'):
-            e['source']['bt_infohash'] = ''
         e['stream_type'] = MEDIA_TYPE_KIND.get(src['media_type'], 'binary') if src.get('media_type') else None
         kind = s['media']['kind']
         e['media'] = {}
@@ -759,7 +803,9 @@ def dict_view(claim):
     t = claim.claim_type
     d = getattr(claim, t).to_dict()
     e = {'title': d.get('title', ''), 'description': d.get('description', ''), 'tags': d.get('tags', []),
-         'languages': d.get('languages', []), 'locations': []}
+         'languages': d.get('languages', []), 'locations': [], 'thumbnail_hash': d.get('thumbnail', {}).get('hash', '')}
+    if t == 'channel':
+        e['cover_hash'] = d.get('cover', {}).get('hash', '')
     for loc in d.get('locations', []):
         x = {k: loc[k] for k in ('country', 'state', 'city', 'code') if k in loc}
         for k in ('latitude', 'longitude'):
@@ -797,7 +843,7 @@ def read_back(claim):
     t = claim.claim_type
     obj = getattr(claim, t)
     e = {'claim_type': t, 'title': obj.title, 'description': obj.description, 'thumbnail_url': obj.thumbnail.url,
-         'tags': list(obj.tags), 'langtags': obj.langtags, 'locations': []}
+         'thumbnail_hash': obj.thumbnail.file_hash, 'tags': list(obj.tags), 'langtags': obj.langtags, 'locations': []}
     for loc in obj.locations:
         x = {}
         for k in ('country', 'state', 'city', 'code'):
@@ -844,7 +890,7 @@ def read_back(claim):
     elif t == 'channel':
         pk = obj.message.public_key
         e.update(public_key=obj.public_key if pk else '', email=obj.email, website_url=obj.website_url,
-                 cover_url=obj.cover.url, featured=obj.featured.ids)
+                 cover_url=obj.cover.url, cover_hash=obj.cover.file_hash, featured=obj.featured.ids)
         if pk and obj.public_key_bytes != pk:
             e['public_key_bytes'] = 'differs'
     elif t == 'repost':
@@ -895,25 +941,25 @@ def check_claim(run, model, spec, kind):
     return verify_claim(run, model, case, spec, claim, {'op': 'claim', 'spec': spec})
 
 
-def verify_claim(run, model, case, spec, claim, signature):
-    """claim: the live object after the assignments described by spec.  to_bytes -> from_bytes, monitor, model."""
-    raw = claim.to_bytes()
-    try:
-        back = Claim.from_bytes(raw)
-    except Exception as ex:                      # noqa
-        run.violation(case, f'to_bytes() gives {len(raw)} bytes that from_bytes() refuses: {type(ex).__name__}: {ex} '
-                            f'(bytes {raw.hex()[:400]})', signature=signature)
-        return None
-    payload = back.to_message_bytes()
-    run.count('claim-bytes:' + str(min(len(raw).bit_length(), 16)))
+def sig_view(o):
+    return {'is_signed': o.is_signed, 'signature': o.signature.hex() if o.signature is not None else None,
+            'hash': o.signing_channel_hash.hex() if o.signing_channel_hash is not None else None, 'id': o.signing_channel_id}
+
+
+KNOWN_DICT_FIELDS = {'.source.bt_infohash': 'source.bt_infohash', '.thumbnail_hash': 'thumbnail.hash', '.cover_hash': 'cover.hash'}
+
+
+def monitor_claim(run, case, spec, claim, back, raw):
+    """the property's own statement on one (object, its bytes, what they parse back to); -> list of complaints"""
     bad = []
-    # -- monitor: the property's own statement --------------------------------------------------
     if back.message != claim.message:
         bad.append('parsed message differs from the one serialised')
     if back.to_bytes() != raw:
         bad.append('re-serialised bytes differ')
     if back.version != 2:
         bad.append(f'version {back.version}')
+    if sig_view(claim) != sig_view(back):
+        bad.append(f'the object shows {sig_view(claim)} but its own bytes parse back to {sig_view(back)}')
     want = expected_read(spec)
     got = read_back(back)
     # known separately: a two-letter region that begins with 'R' loses that letter in Language.region
@@ -929,15 +975,50 @@ def verify_claim(run, model, case, spec, claim, signature):
         try:
             dv, dw = dict_view(back), expected_dict_view(spec)
             if dv != dw:
-                bad += ['to_dict()' + x for x in diff_keys(dv, dw)]
+                for x in diff_keys(dv, dw):
+                    field = x.split(':')[0]
+                    if field in KNOWN_DICT_FIELDS:
+                        # known separately: hashes that to_dict() leaves in base64
+                        report_once(run, case, 'to_dict()' + x, {'view': 'to_dict', 'field': KNOWN_DICT_FIELDS[field]})
+                    else:
+                        bad.append('to_dict()' + x)
         except Exception as ex:                  # noqa
             bad.append(f'to_dict() raises {type(ex).__name__}: {ex}')
     plain = claim_pb2.Claim()
-    plain.ParseFromString(raw[85:] if spec.get('signed') else raw[1:])
+    plain.ParseFromString(raw[85:] if raw[:1] == b'\x01' else raw[1:])
     ptree = msg_tree(plain)
     etree = expected_tree(spec)
     if ptree != etree:
         bad.append('plain protobuf parse does not show what was set: ' + json.dumps(ptree)[:400] + ' expected ' + json.dumps(etree)[:400])
+    return bad
+
+
+def verify_claim(run, model, case, spec, claim, signature):
+    """claim: the live object after the assignments described by spec.  to_bytes -> from_bytes, monitor, model."""
+    _COORD_MODE[0] = 'exact'
+    raw = claim.to_bytes()
+    try:
+        back = Claim.from_bytes(raw)
+    except Exception as ex:                      # noqa
+        run.violation(case, f'to_bytes() gives {len(raw)} bytes that from_bytes() refuses: {type(ex).__name__}: {ex} '
+                            f'(bytes {raw.hex()[:400]})', signature=signature)
+        return None
+    payload = back.to_message_bytes()
+    run.count('claim-bytes:' + str(min(len(raw).bit_length(), 16)))
+    bad = monitor_claim(run, case, spec, claim, back, raw)
+    if bad and has_float_coord(spec):
+        # the same with the coordinates read through Decimal(float): recognises that one finding, nothing else
+        _COORD_MODE[0] = 'binary'
+        try:
+            bad2 = monitor_claim(run, case, spec, claim, back, raw)
+        finally:
+            _COORD_MODE[0] = 'exact'
+        if not bad2:
+            report_once(run, case, 'a latitude / longitude given as a number goes through Decimal(float) and does not read back '
+                                   'as set: ' + '; '.join(bad)[:400], {'accessor': 'Location.latitude/longitude', 'input': 'float'})
+            bad = []
+            _COORD_MODE[0] = 'binary-for-this-case'
+    etree = None
     # known separately: the one accessor that does not give back what was set
     if spec['type'] == 'stream' and spec['source'].get('bt_infohash'):
         try:
@@ -952,7 +1033,19 @@ def verify_claim(run, model, case, spec, claim, signature):
     if bad:
         run.violation(case, '; '.join(bad)[:1500], signature=signature)
         return None
+    if _COORD_MODE[0] != 'exact':
+        _COORD_MODE[0] = 'binary'
+    try:
+        etree = expected_tree(spec)
+    finally:
+        _COORD_MODE[0] = 'exact'
     # -- correspondence ---------------------------------------------------------------------------
+    if spec['type'] == 'stream' and back.stream.has_fee and back.stream.fee.address_bytes:
+        ab = back.stream.fee.address_bytes
+        run.compare('C16.fee_address', case, back.stream.fee.address,
+                    bytes.fromhex(model.call('fee_address', b=ab.hex()) or '').decode('ascii'))
+        run.compare('C16.fee_address_bytes', case, {'ok': ab.hex()},
+                    model.call('fee_address_bytes', t=spec['fee']['address'].encode().hex()))
     impl = {'env': env_view(back, payload), 'tree': {'ok': msg_tree(back.message)}}
     mod = model.call('decode_all', d=raw.hex(), schema=SCHEMA.table, depth=DEPTH, m=M_CLAIM)
     run.compare('C16.decode_all', case, impl, mod)
@@ -1029,7 +1122,9 @@ def media_state(kind, media):
 
 
 def gen_step(rng, spec):
-    kinds = ['fee-new', 'fee-new', 'fee-new', 'title', 'tags', 'release', 'author', 'size', 'file', 'file', 'file']
+    kinds = ['fee-new', 'fee-new', 'fee-new', 'title', 'tags', 'release', 'author', 'size', 'file', 'file', 'file', 'sign']
+    if spec.get('signed'):
+        kinds += ['clear-signature'] * 4
     mkind = spec.get('media', {}).get('kind')
     if mkind in MEDIA_FIELDS:
         kinds += ['media'] * 4 + ['file-non-media'] * 3
@@ -1059,6 +1154,8 @@ def gen_step(rng, spec):
         st['release_time'] = rng.choice(I64_EDGES + [0, 0])
     elif k == 'size':
         st['size'] = rng.choice([0, 0, 1, 2 ** 64 - 1, rng.randrange(2 ** 64)])
+    elif k == 'sign':
+        st['hash'], st['sig'], st['by_id'] = gen_hex(rng, 20), gen_hex(rng, 64), rng.random() < 0.3
     elif k == 'media':
         fields = [f for f in MEDIA_FIELDS[mkind] if rng.random() < 0.6] or [rng.choice(MEDIA_FIELDS[mkind])]
         st['values'] = {f: rng.choice([0, 0, 0, 1, 2 ** 32 - 1, rng.randrange(1, 2 ** 32)]) for f in fields}
@@ -1112,6 +1209,12 @@ def step_effect(spec, st):
     elif k == 'size':
         kw = {'file_size': st['size']}
         spec['source']['size'] = st['size']
+    elif k == 'sign':
+        kw = None
+        spec['signed'] = {'hash': st['hash'], 'sig': st['sig'], 'by_id': st['by_id']}
+    elif k == 'clear-signature':
+        kw = None
+        spec['signed'] = None
     elif k == 'media':
         kw = dict(st['values'])
         spec['media'].update(st['values'])
@@ -1135,7 +1238,16 @@ def step_effect(spec, st):
 
 def apply_step(claim, spec, st):
     kw, spec = step_effect(spec, st)
-    claim.stream.update(**kw)
+    if st['kind'] == 'sign':
+        claim.signature = bytes.fromhex(st['sig'])
+        if st['by_id']:
+            claim.signing_channel_id = bytes.fromhex(st['hash'])[::-1].hex()
+        else:
+            claim.signing_channel_hash = bytes.fromhex(st['hash'])
+    elif st['kind'] == 'clear-signature':
+        claim.clear_signature()
+    else:
+        claim.stream.update(**kw)
     return spec
 
 
@@ -1161,6 +1273,7 @@ def check_sequence(run, model, seq, kind):
     try:
         live = build_claim(spec)
         back = verify_claim(run, model, dict(case, step=0), spec, live, sig)
+        sigops = [['sign', spec['signed']['hash'], spec['signed']['sig']]] if spec.get('signed') else []
         for i, st in enumerate(seq['steps'], 1):
             if back is None:
                 return
@@ -1170,6 +1283,12 @@ def check_sequence(run, model, seq, kind):
             spec = apply_step(target, spec, st)
             back = verify_claim(run, model, dict(case, step=i), spec, target, sig)
             live = target
+            if back is not None and st['kind'] in ('sign', 'clear-signature'):
+                # the signature state of the object against the model's history of sign / clear operations
+                sigops.append(['sign', st['hash'], st['sig']] if st['kind'] == 'sign' else ['clear'])
+                mod = model.call('sig_run', ops=sigops, payload=target.to_message_bytes().hex())
+                v = sig_view(target)
+                run.compare('C16.sig_run', dict(case, step=i), {'signature': v['signature'], 'hash': v['hash'], 'bytes': target.to_bytes().hex()}, mod)
             if back is not None and st['kind'] in ('file', 'media'):
                 # the image/video/audio bookkeeping of Stream.update against the model's media_step
                 given = st.get('values', {})
@@ -1216,6 +1335,8 @@ def check_support(run, model, spec, kind):
                             f'(bytes {raw.hex()[:400]})', signature={'op': 'support', 'spec': spec})
         return
     bad = []
+    if sig_view(sup) != sig_view(back):
+        bad.append(f'the object shows {sig_view(sup)} but its own bytes parse back to {sig_view(back)}')
     if back.message != sup.message or back.to_bytes() != raw:
         bad.append('support does not round-trip')
     if back.emoji != spec['emoji'] or back.comment != spec['comment']:
@@ -1382,6 +1503,61 @@ def check_embedding(run, model, obj, carrier, pad, extra, kind):
     run.compare('C16.embed', case, source.hex(),
                 model.call('embed', carrier=carrier, name=nm.hex(), claim_id=cid_raw.hex(), pkh=pk.hex(), payload=data.hex()))
     run.compare('C16.extract_payload', case, data.hex(), model.call('extract_payload', src=back.script.source.hex()))
+
+
+def check_sign_clear(run, model, which, via, text, kind):
+    """build, sign, clear again (directly, on a parsed copy, or through Output.clear_signature as claim_update /
+    --clear_channel do): afterwards the object must equal what its own bytes parse back to and name no channel"""
+    from lbry.wallet import Transaction, Input, Output
+    from lbry.wallet.script import OutputScript
+    case = {'op': 'sign-clear', 'which': which, 'via': via, 'text': text, 'kind': kind}
+    run.case(case, nontrivial=True)
+    run.count('sign-clear:' + which + ':' + via)
+    sig = {'op': 'sign-clear', 'which': which, 'via': via, 'text': text}
+    cls = Claim if which == 'claim' else Support
+    o = cls()
+    if which == 'claim':
+        o.stream.title = text
+    elif text:
+        o.comment = text
+    never_signed = o.to_bytes()
+    o.signature, o.signing_channel_hash = bytes.fromhex(EMBED_SIG['sig']), bytes.fromhex(EMBED_SIG['hash'])
+    signed = o.to_bytes()
+    bad = []
+    if via == 'object':
+        o.clear_signature()
+        final = o
+    elif via == 'parsed-copy':
+        final = cls.from_bytes(signed)
+        final.clear_signature()
+    else:
+        if which == 'claim':
+            txo = Output.pay_update_claim_pubkey_hash(1000, 'name', EMBED_CLAIM_ID, o, EMBED_PKH)
+        else:
+            txo = Output.pay_support_data_pubkey_hash(1000, 'name', EMBED_CLAIM_ID, o, EMBED_PKH)
+        txo.clear_signature()
+        final = txo.signable
+        funding = Transaction().add_outputs([Output.pay_pubkey_hash(10 ** 8, EMBED_PKH)])
+        tx = Transaction().add_inputs([Input.spend(funding.outputs[0])]).add_outputs([txo])
+        stored = Transaction(tx.raw).outputs[0].signable
+        if sig_view(stored) != sig_view(final) or stored.to_bytes() != final.to_bytes():
+            bad.append(f'the stored output reads {sig_view(stored)}, the object in memory {sig_view(final)}')
+    raw = final.to_bytes()
+    back = cls.from_bytes(raw)
+    if raw != never_signed:
+        bad.append('after clear_signature the bytes differ from the never-signed object')
+    if sig_view(final) != sig_view(back):
+        bad.append(f'after clear_signature the object shows {sig_view(final)} but its own bytes parse back to {sig_view(back)}')
+    if final.is_signed or final.signing_channel_id is not None or final.signing_channel_hash is not None:
+        bad.append(f'after clear_signature the object still names channel {final.signing_channel_id}')
+    if bad:
+        run.violation(case, '; '.join(bad), signature=sig)
+        return
+    mod = model.call('sig_run', ops=[['sign', EMBED_SIG['hash'], EMBED_SIG['sig']], ['clear']], payload=final.to_message_bytes().hex())
+    v = sig_view(final)
+    run.compare('C16.sig_run', case, {'signature': v['signature'], 'hash': v['hash'], 'bytes': raw.hex()}, mod)
+    mod = model.call('sig_run', ops=[['sign', EMBED_SIG['hash'], EMBED_SIG['sig']]], payload=final.to_message_bytes().hex())
+    run.compare('C16.sig_run', case, {'signature': EMBED_SIG['sig'], 'hash': EMBED_SIG['hash'], 'bytes': signed.hex()}, mod)
 
 
 # ------------------------------------------------------------------------------------------------
@@ -1861,7 +2037,8 @@ def gen_legacy_v1(rng):
         sig = old.publisherSignature
         sig.version = 1
         sig.signatureType = rng.choice([1, 2, 3])
-        sig.signature = bytes(rng.randrange(256) for _ in range(64))
+        # NIST384p signatures are 96 bytes: such a claim decodes, but has no place in the 64-byte slot of the current envelope
+        sig.signature = bytes(rng.randrange(256) for _ in range(96 if sig.signatureType == 2 and rng.random() < 0.6 else 64))
         sig.certificateId = bytes(rng.randrange(256) for _ in range(20))
         e.update(signed=True, signature=sig.signature.hex(), signing_channel_id=sig.certificateId.hex(),
                  signature_type={1: 'NIST256p', 2: 'NIST384p', 3: 'SECP256k1'}[sig.signatureType])
@@ -1966,6 +2143,9 @@ def check_legacy(run, model, data, expect, kind, channel_tx=None, stream_tx=None
         run.compare('C16.v1_tree', case, {'ok': msg_tree(old)},
                     model.call('parse_tree', d=data.hex(), schema=SCHEMA.table, depth=DEPTH, m=M_V1))
         run.compare('C16.v1_ser', case, data.hex(), model.call('ser_tree', tree=msg_tree(old)))
+    if claim.is_signed and len(claim.signature) != 64:
+        run.count('legacy:signature-not-64-bytes(decode only)')
+        return
     # a decoded legacy claim is an ordinary claim from here on: it must survive the current encoding
     raw = claim.to_bytes()
     back = Claim.from_bytes(raw)
@@ -2019,10 +2199,12 @@ def check_signable_bytes(run, model, data, kind):
             impl.update(hash=sup.signing_channel_hash.hex(), sig=sup.signature.hex())
         parsed = True
     except IndexError:
-        impl, parsed = 'empty', None
+        impl, parsed = 'index-error', None          # the behaviour before ee15672: not a decode error
     except (DecodeError, UnicodeDecodeError) as ex:
         parsed = False
         impl = 'version' if 'format version' in str(ex) else 'payload'
+        if 'Empty payload' in str(ex):
+            impl, parsed = 'empty', None
     run.count('support-bytes:' + (impl if isinstance(impl, str) else impl['kind']))
     mod = model.call('decode_all', d=data.hex(), schema=SCHEMA.table, depth=DEPTH, m=M_SUPPORT)
     # monitor: version bytes other than 0 and 1 are refused, 0/1 are not refused for their version
@@ -2054,8 +2236,11 @@ def check_claim_dispatch(run, model, data, kind):
         c = Claim.from_bytes(data)
         impl = {0: 'json', 1: 'v1', 2: 'v2'}[c.version]
     except IndexError:
-        impl = 'empty'
-    except Exception:                       # noqa  (a legacy decoder refusing damaged data is not a dispatch matter)
+        impl = 'index-error'
+    except DecodeError as ex:
+        impl = 'empty' if 'Empty payload' in str(ex) else None
+    except Exception as ex:                 # noqa  (which class a refusal has is not a matter of this property)
+        run.count('claim-bytes:refused-with-' + type(ex).__name__)
         impl = None
     if impl is None:
         if fmt == 'v2':
@@ -2338,6 +2523,11 @@ def main(run):
     for _ in range(q(60, 1500)):
         obj, carrier = rng.choice(shapes)
         check_embedding(run, model, obj, carrier, rng.choice([0, 1, 2, 19, 36, 73, rng.randrange(0, 400)]), rng.choice([0, 0, 1, 2]), 'generated')
+    for which in ('claim', 'support'):
+        for via in ('object', 'parsed-copy', 'output'):
+            for text in ('', 'hello', 'x' * 200):
+                if which == 'claim' or text != '' or via != 'output':
+                    check_sign_clear(run, model, which, via, text, 'family')
     for e in load_corpus('groups.json'):
         check_independence(run, model, e['items'], 'corpus')
     for _ in range(q(200, 4000)):
@@ -2415,6 +2605,8 @@ def replay(run, case):
     op = case.get('op')
     if op == 'claim':
         run_claim_spec(run, model, case['spec'], 'replay')
+    elif op == 'sign-clear':
+        check_sign_clear(run, model, case['which'], case['via'], case['text'], 'replay')
     elif op == 'embed':
         check_embedding(run, model, case['obj'], case['carrier'], case['pad'], case['extra'], 'replay')
     elif op == 'independence':
